@@ -12,6 +12,10 @@ def _extra(stats, cov):
     return dict(programs=produced + runs, disagreements_checked=validated + logs,
                 plans_produced=produced, distinct_plans_validated=validated, plans_rejected=validated - accepted,
                 pipeline_runs=runs, consume_logs_judged=logs, consume_logs_rejected=logs - stats.get('logs_accepted', 0),
+                # object lifecycle: runs of one Pipeline object on several commit selections (kinds reuse-*)
+                reused_pipeline_cases=stats.get('reuse_cases', 0), reused_pipeline_runs=stats.get('reuse_runs', 0),
+                reused_runs_same_length_and_ends_other_middle=stats.get('reuse_runs_same_length_and_ends_other_middle', 0),
+                reused_runs_after_an_aborted_run=stats.get('reuse_runs_aborted_by_the_injected_failure', 0),
                 consume_records=stats.get('consume_records', 0),
                 # generator family scale: plans / call logs of histories with 10^3 .. 10^6 branches judged by the extracted
                 # fast_c02 (C02_fast_necessary: a rejected plan violates C02)
@@ -66,11 +70,27 @@ CONFIG = dict(
          'in most. scale-<shape>: the large histories of the plan stream as real repositories (10^3 branches in every shape; '
          'thorough 10^4 in seven shapes and > 2^16 branches as star / comb / diamonds) run with a light recording item (instance '
          'ids, no sets); the call log (root, Fork -> clones, Consume, Merge) is read as a plan over instance ids and judged by '
-         'fast_c02 against the commit graph, and every commit must be consumed.',
+         'fast_c02 against the commit graph, and every commit must be consumed. '
+         'reuse-* (object lifecycle, harness/cmd/c02run/reuse.go): ONE Pipeline object and the SAME two item instances analyse several commit '
+         'selections of one repository one after the other (fields sels = (sel mode opts dist commits-in-slice-order) per run, obs runs = one '
+         'pair of logs per run); EVERY run is judged like the run of a fresh pipeline: exec_ok against the history restricted to the commits '
+         'handed to that run (renumbered; a parent outside the selection is a dangling edge), and any commit that was not handed to the run - '
+         'consumed, or found in the state of the consuming instance - is a failure. How the object is prepared (mode): 0 Initialize(facts) '
+         'again, 1 no Initialize (the harness resets the two original instances, Run is called again), 2 Initialize and the new selection '
+         'written into the backing array of the previous slice, 3 Initialize twice; mode+10 = error path: the providing item fails at its '
+         'middle Consume call, Run aborts (not judged), the runs after it re-use the aborted object. Selection families: reuse-ex4/ex5 every DAG '
+         'on 4 / 5 commits x the selections that keep the first and the last commit and drop one other (same length, same ends, other middle), '
+         'then everything, then the first again; reuse-sides each side of a merge of 2-3 equally long arms, alone, in pairs, the whole history; '
+         'reuse-mid random equal-size selections with the same first and last slice element on multi-root / random / GenHist / wide histories; '
+         'reuse-sub ancestries of one or two heads, shallow cuts; reuse-grow a history that grows between the runs and shrinks again; '
+         'reuse-medium ladder / comb / bush / diamonds / ffchain of up to 60 commits with another middle commit left out per run; '
+         'reuse-big-<shape> (light item, fast_c02): comb / diamonds / bush of 10^3 .. 10^4 commits (thorough: 10^4 in five shapes, a comb of '
+         '2^16 commits) run five times, each run without one commit whose removal keeps the history connected (same length and ends).',
     exhaustive_note='all DAGs on <=5 topologically numbered commits (connected: 88 299 graph x hash-order cases, disconnected: '
                     '36 170) x all hash orders; thorough adds all connected DAGs on 6 commits x every sixth of the 720 hash orders; '
                     'execution stream: all DAGs on <=5 commits x hibernation distance 0..3 x DumpPlan/PrintActions combinations '
-                    '(4 396 runs), thorough adds all DAGs on 6 commits',
+                    '(4 396 runs), thorough adds all DAGs on 6 commits; re-use of one Pipeline object: every DAG on 4 and 5 commits x '
+                    'the run sequence (drop commit 1, drop commit 2, [drop commit 3,] everything, drop commit 1 again)',
     assumptions=['commits are numbered so that parents have smaller numbers (every finite DAG has such a numbering; the '
                  'validator checks it) and the graph given to the validator is the history restricted to the analysed commit set',
                  'prepareRunPlan reads only Hash and ParentHashes of a commit (fabricated commits are used; Committer.When / '
@@ -84,7 +104,10 @@ CONFIG = dict(
                   'the declarative specifications coq/theories/Plan/Spec.v + Graph.v (C02_spec) and ExecCheck.v (exec_spec) as the '
                   'reading of the property text',
                   'execution stream: the recording items of harness/cmd/c02run (their Fork copies the state, their Merge gives every '
-                  'participant the union, Consume logs the state before the call) as the observer of what a stateful item sees'],
+                  'participant the union, Consume logs the state before the call) as the observer of what a stateful item sees',
+                  're-use cases: the restriction of the repository history to the commits handed to a run (computed by the driver) as '
+                  'the commit graph of that run; pipelines of recording items only (the stock TreeDiff cannot be re-run on one Pipeline: '
+                  'its Initialize does not clear previousCommit)'],
     level_text='translation validation at two levels: every plan produced by the real planner, and every Consume log produced by '
                'the real Pipeline.Run executing its own plan on synthetic repositories, is accepted by a validator extracted from '
                'Coq and proved sound against the declarative C02 specification for all graphs, plans and logs',
@@ -94,7 +117,9 @@ CONFIG = dict(
                'proved: that the Go planner always produces an accepted plan and that Pipeline.Run always executes it faithfully '
                '- both are checked per output (plans: exhaustively for <=5 commits, every 6th hash order for 6 commits, randomly up '
                'to 40 commits, wide forks / merges and long fast-forward paths to ~150 commits; executions: all DAGs on <=5 commits x '
-               'hibernation distance 0..3 x DumpPlan / PrintActions, generated multi-root / octopus / criss-cross histories up to 40 commits). '
+               'hibernation distance 0..3 x DumpPlan / PrintActions, generated multi-root / octopus / criss-cross histories up to 40 commits; '
+               'also as the 2nd..6th run of ONE Pipeline object on another commit selection of the same repository, re-initialised or not, '
+               'after a completed or an aborted run). '
                'Histories with 10^3 .. 10^6 branches (family scale, incl. more than 2^16 branch indexes in one plan) are judged by '
                'fast_c02, proved to reject only plans that violate C02 (necessary conditions: replay on a live branch after a parent, '
                'merges of distinct live branches with a common last commit), not by the full validator. The execution log is judged against the commit graph only (the planner is '
